@@ -209,6 +209,9 @@ func init() {
 			ruleRingModulus(c, r, "", "enc")
 			rulePeekLen(c, r, "")
 			ruleDiscardFeed(c, r, "")
+			// a repeat at distance <= DictCap can only be found if the encoder dictionary really has
+			// the configured capacity (newEncoderDict(dictCap, bufSize, ...), not swapped)
+			ruleEncoderDictArgs(c, r, "")
 		},
 	})
 }
